@@ -199,10 +199,13 @@ def history_rule(ctx, body, R):
                         # must be under the history flag
                         site_bb = alt.site[0] if alt.site else i
                         # find the defining block of this alternative: use the place where the chain is collected
-                        flag = False
-                        for c in path_conditions(body, site_bb):
-                            if c.kind == 'bool' and c.truth and c.expr.kind == 'place' and c.expr.root == ('param', 4):
-                                flag = True
+                        # (the flag may travel as a private two-valued mode built from it: every way of reaching the
+                        # site - variant tests unfolded to the conditions that built the variant - has the flag set)
+                        from lib import expand_conditions
+                        ways = expand_conditions(body, path_conditions(body, site_bb))
+                        flag = bool(ways) and all(any(
+                            c.kind == 'bool' and c.truth and c.expr.kind == 'place' and c.expr.root == ('param', 4)
+                            for c in cv) for cv in ways)
                         ctx.check(flag, R, body, inst + ':flag',
                                   "source history is appended only when the merge_history flag is set",
                                   "the source's history can be appended although the merge_history flag is false",
